@@ -236,6 +236,9 @@ def run(ctx: core.Ctx):
                         qs += [("tables", db, None), ("tables", db, "a%"), ("tables", db, "%1"), ("tables", db, "")]
                 if cur:
                     qs.append(("tables", None, None))
+                if depth == 2:
+                    # the tables of a mapping without a database level live in the database '': named explicitly they are listed
+                    qs += [("tables", "", None), ("tables", "", "a%"), ("tables", "", "")]
                 for t in tables[:3]:
                     for db in ([None] + [d for d in dbs[:2] if d]):
                         if db is None and not cur and depth != 2:
@@ -273,7 +276,7 @@ def run(ctx: core.Ctx):
                 sql = f"SHOW DATABASES{like}"
                 want = sorted(dec(x) for x in mres)
             elif kind == "tables":
-                sql = f"SHOW TABLES{' FROM ' + arg if arg else ''}{like}"
+                sql = f"SHOW TABLES{(' FROM ' + (arg or '``')) if arg is not None else ''}{like}"
                 want = sorted(dec(x) for x in mres)
             elif kind == "columns":
                 t, db = arg
